@@ -201,7 +201,67 @@ func (d *driver) runMsmReuse(w emitter, k int, c *msmCase) {
 	}
 }
 
+// a history of large calls in one process: a dense call, then shorter / equally long calls with many zero scalars at positions where
+// the earlier call had non-zero ones, then a single non-zero scalar (whatever an earlier call leaves in recycled buffers must not matter)
+func (d *driver) runMsmHistory(w emitter, k int, c *msmCase) {
+	p := newPrg("msm-history", d.seed, k)
+	N := c.N
+	steps := []struct {
+		n    int
+		mode string
+	}{{N, "dense"}, {N, "thirds"}, {N - N/4, "sparse"}, {N, "single"}, {N/2 + 1, "dense"}, {N, "zero"}}
+	for si, st := range steps {
+		pts := msmPoints("srs", st.n, p)
+		vals := make([]*big.Int, st.n)
+		for i := range vals {
+			vals[i] = new(big.Int)
+			switch st.mode {
+			case "dense":
+				vals[i] = scalarClass("rnd", p)
+			case "thirds":
+				if i%3 != 0 {
+					vals[i] = scalarClass("rnd", p)
+				}
+			case "sparse":
+				if i%17 == 5 {
+					vals[i] = scalarClass("rnd", p)
+				}
+			case "single":
+				if i == st.n/2 {
+					vals[i] = big.NewInt(3)
+				}
+			}
+		}
+		scs := toFr(vals, c.Mont)
+		xy := make([][][]int, len(pts))
+		for i := range pts {
+			xy[i] = affXY(&pts[i])
+		}
+		e := ev{"ev": "msm", "k": k, "kind": "api", "n": st.n, "tasks": c.Tasks, "mont": c.Mont, "small": 0, "pcls": "history", "scls": st.mode + "/" + itoa(si),
+			"pts": xy, "scalars": limbsList(vals), "numcpu": runtime.NumCPU(), "finished": true}
+		func() {
+			defer func() {
+				if r := recover(); r != nil {
+					e["panic"] = fmt.Sprint(r)
+				}
+			}()
+			var res banderwagon.Element
+			res.SetIdentity()
+			r, err := res.MultiExp(pts, scs, banderwagon.MultiExpConfig{NbTasks: c.Tasks, ScalarsMont: c.Mont})
+			e["err"] = err != nil
+			if err == nil {
+				e["out"] = coords(r)
+			}
+		}()
+		w.emit(e)
+	}
+}
+
 func (d *driver) runMsmCase(w emitter, k int, c *msmCase) {
+	if c.Kind == "history" {
+		d.runMsmHistory(w, k, c)
+		return
+	}
 	if c.Kind == "reuse" {
 		d.runMsmReuse(w, k, c)
 		return
